@@ -154,6 +154,28 @@ PROPS["C15"] = A("TestSim_C15",
     assumptions=COMMON_ASSUME + ["an action that falls on the exact instant of the establishment timeout is judged leniently (timer and request are concurrent)",
         "media payloads are opaque strings; ICE server configuration is a fixed stub"])
 
+PROPS["C17"] = A("TestSim_C17",
+    "one evaluation = one simulated run of the cluster simulator: 3-5 real Cluster objects (failoverInit, run loop, electLeader, sendHealthChecks, Health, Vote, rehash, isPartitioned, reconnect; peers listed in a different "
+    "order on every node; heartbeat 50-200 ms with the real jitter, vote_after 2-8, node_fail_after 2-6) over a simulated inter-node network, driven through 1-8 network phases of 0.1-6 s each drawn from: fully connected, "
+    "one node isolated, split in two, everybody alone, 1-4 directed links cut (asymmetric), each with 0-50% request loss, 0-50% reply loss (the request was executed) and per-message delays of 0-900 ms (reordering); "
+    "then all faults stop. Requests and replies are gob-copied; each request gets at most one reply; nodes keep their state. Invariants evaluated at every delivered vote/health check and phase boundary (white-box on every "
+    "node's term/leader/ring plus the recorded vote history): no term has two self-declared leaders; a node grants at most one YES per term and none in a term in which it was a candidate; terms never decrease; a node "
+    "declares itself leader only with YES replies delivered to it from a strict majority of all configured nodes (itself included); nodes with equal ring signatures place 40 sample names identically; nodes whose "
+    "signatures differ reject each other's Route and TopicMaster requests; a leader cut off from more than half of the configured nodes for node_fail_after+3 heartbeats reports isPartitioned; no node's goroutine panics. "
+    "Adoption: after the last fault the run continues until one node has been the only self-declared leader in one term at two observations 20 heartbeats apart (no liveness bound is demanded: the property states "
+    "none; runs that never stabilise within 12 such rounds are counted by a probe); every node must then name that leader in that term and have its ring signature. Non-trivial = at least one vote request was sent and at least one leader was observed; distinct = distinct (program hash, schedule hash).",
+    quick=(8, 40, 600), thorough=(16, 1200, 3000),
+    probes=["fault.partition", "fault.partition_one_way", "fault.msg_loss", "fault.reply_loss", "fault.msg_delay", "fault.partition_refused", "c17.dial_refused", "c17.minority_leader_judged", "c17.signature_gate_judged", "c17.stable_leader_judged"],
+    assumptions=["the ring laws over all key sets and all orderings (order independence, totality, minimal movement) are pure functions of the node list and are sampled in situ only (40 names per pair of nodes per phase)",
+                 "node crash with loss of state, clock skew between nodes and paused nodes are not simulated (the property quantifies over nodes that have kept their state); every node reads the same simulated clock",
+                 "the wire is replaced at the six places where cluster.go touches *rpc.Client / net.Dial (bin/vseams.py, scratch copy only); net/rpc itself, TCP and gob type registration are not exercised",
+                 "proxy/master topic traffic is not generated: the signature gate is probed with synthetic Route/TopicMaster requests, the hub's rehash handling runs against a server without proxy topics"],
+    components={"real": ["server/cluster_leader.go (all of it)", "server/cluster.go: Cluster/ClusterNode state, call/callAsync/reconnect, rehash, isPartitioned, gcProxySessions, invalidateProxySubs, Route and TopicMaster signature gates",
+                         "server/ringhash", "the booted single-node server (hub rehash handling)"],
+                "stub": ["inter-node transport: simRPC (harness/simrpc.go.txt) instead of net/rpc over TCP", "goroutine scheduler, timers, randomness (simrt + testing/synctest)"]})
+PROPS["C17"]["engine_name"] = "clustersim"
+PROPS["C17"]["engine"] = "B"
+
 PROPS["C18"] = {
     "engine": "sqlfault", "engine_name": "sqlfault", "level": "fault_enumeration", "test": "TestSQLFault",
     "technique": "fault injection by complete enumeration: every statement position x fault kind of every transactional adapter operation, real adapter code over a simulated database connection, oracle over the recorded statement history",
@@ -180,8 +202,6 @@ NOT_APPLICABLE = {
            "The remaining clause (parties that replay change notifications converge to the authoritative permissions) is a simulation target, designed in DESIGN.md section 5 (C05), but its tracker clients / proxy topic were not built in the time available",
     "C10": "not claimed: a simulation target (presence convergence at quiescence, leak predicate), designed in DESIGN.md section 5 (C10); the workload and oracle were not built in the time available. The online-counter clause is checked white-box by the C14 check",
     "C16": "not claimed: a simulation target (upload/download handlers, link/GC histories under a simulated clock), designed in DESIGN.md section 5 (C16); not built in the time available",
-    "C17": "not claimed. The ring laws (order independence, totality, minimal movement over all key sets) are pure functions; the election-safety clauses are the model case for this technique and are designed as engine B "
-           "(DESIGN.md section 3: N real Cluster objects over a simulated RPC network), which was not built in the time available",
     "C19": "not claimed. Query parsing, tag rewriting and tag normalisation are pure functions of one input; the clauses about histories of tag updates and masked/reserved namespaces (DESIGN.md section 5, C19) were not built in the time available",
     "C20": "pure functions of one input (id codecs, name spellings, JSON<->protobuf converters): no schedule, clock, fault, crash point or second party for a simulator to decide; see DESIGN.md section 6",
 }
